@@ -251,7 +251,10 @@ def freshDState (files : Files) (p : Params) (m : Member) (key : Nat) : Except E
     | none => .error .open_
     | some rd =>
       match initDec p m.compType with
-      | none => .error .dataformat
+      | none =>
+        -- `cabd_init_decomp`: unknown method → DATAFORMAT; a known method whose init returned NULL
+        -- (e.g. LZX/Quantum window bits out of range) → NOMEMORY
+        .error (if compMask m.compType ≤ 3 then .nomemory else .dataformat)
       | some dec =>
         .ok { folder := key, offset := 0, dec := some dec,
               feeder := { rd := some rd, parts := m.parts, block := 0, numBlocks := m.numBlocks,
